@@ -2,6 +2,8 @@
 // instantiated, cloned, re-initialised and dropped in by the real compiler and
 // engine. They log everything they see and return what the plan scripts.
 #include "sim.h"
+#include "world.h"
+#include <sys/stat.h>
 
 #include <algorithm>
 #include <chrono>
@@ -289,6 +291,12 @@ class SimHook : public Oomd::Engine::PrekillHook {
     e.extra["uuid"] = uuidIndex(ac.action_group_run_uuid);
     auto id = cg.id();
     e.extra["ino"] = id ? (Json::UInt64)*id : (Json::UInt64)0;
+    {
+      struct stat st;
+      if (::fstat(cg.fd().fd(), &st) == 0)
+        if (Cg* c = W.byDirIno(st.st_ino))
+          e.inc = c->inc;
+    }
     record(std::move(e));
     probe("hook-fire");
     fires_++;
